@@ -43,6 +43,31 @@ func c03ExemptReason(key string) (string, bool) {
 	return "", false
 }
 
+// c03ExemptFunc: the function is exempt itself, or it is a helper that only an exempt function (and its closures) calls -
+// the work of an exempt function split into pieces stays exempt.
+func c03ExemptFunc(p *core.Prog, f *core.Func) (string, bool) {
+	if reason, ok := c03ExemptReason(f.Key); ok {
+		return reason, true
+	}
+	root := f.Root()
+	callers := p.Callers(root)
+	if len(callers) == 0 || root.Obj == nil || root.Obj.Exported() {
+		return "", false
+	}
+	reason := ""
+	for _, cs := range callers {
+		r2, ok := c03ExemptReason(cs.In.Key)
+		if !ok {
+			r2, ok = c03ExemptReason(cs.In.Root().Key)
+		}
+		if !ok {
+			return "", false
+		}
+		reason = r2
+	}
+	return reason + " (helper called only from the exempt function)", true
+}
+
 // C03 — a request is never answered with an object that belongs to a different key.
 func C03(r *core.Report) {
 	r.Explanation = "Decides the must-pass-through clause of C03: the compact index compares only a 24-bit hash, so every typed Get is lossy; for every function that turns the " +
@@ -107,7 +132,7 @@ func C03(r *core.Report) {
 			if n := okeyUses[okey]; n > 1 {
 				okey = fmt.Sprintf("%s~%d", okey, n)
 			}
-			if reason, ok := c03ExemptReason(f.Key); ok {
+			if reason, ok := c03ExemptFunc(p, f); ok {
 				r.OK("C03.R1", okey+"#exempt", pos(r, cs.Call), "exempt: "+reason)
 				continue
 			}
